@@ -316,6 +316,12 @@ Proof.
     pose proof (append_syms_inv _ _ _ _ _ inv_init Ea) as Hi2.
     destruct (in_label st2 || is_nil (buf st2)); [|discriminate]. intros H. eapply Hfin; eauto.
   - intros f w. unfold uncertain_from_chars.
+    destruct (uncertain_from_chars_root_special && first_is_dot cs).
+    { destruct (sym_next cs) as [[[s0 r0]|]|e0|p0|]; try discriminate.
+      destruct (sym_next r0) as [[[s1 r1]|]|e1|p1|]; try discriminate.
+      unfold const_from_symbols_root. cbn [raw_append app]. intros E; injection E as <- <-.
+      exists []. split; [split; [constructor|cbn; lia]|reflexivity]. }
+    unfold uncertain_from_chars_plain.
     destruct (append_syms (S (length cs)) None b_init cs) as [[st2 [e|]]|e2|p2|] eqn:Ea; try discriminate.
     pose proof (append_syms_inv _ _ _ _ _ inv_init Ea) as Hi2.
     destruct (in_label st2 || is_nil (buf st2)).
@@ -425,15 +431,24 @@ Qed.
 (* Display for UncertainName and back through UncertainName::from_chars (FromStr,
    serde): a relative name always; an absolute name unless it is the root and
    the source does not special-case it *)
+Lemma first_not_dot l rest : valid_label l -> first_is_dot (display_label l ++ rest) = false.
+Proof.
+  intros [[L1 L2] L3]. destruct l as [|b0 l']; [cbn in L1; lia|]. inversion L3; subst.
+  unfold display_label. cbn [flat_map]. rewrite <- app_assoc.
+  destruct (sym_display_octet b0 (flat_map display_octet l' ++ rest)) as (s & S1 & _ & S3 & _); [assumption|].
+  unfold first_is_dot. rewrite S1. exact S3.
+Qed.
+
 Theorem uncertain_display_parse_roundtrip n :
   (valid_rel n -> uncertain_from_chars None (display_uncertain false n) = Ok (false, wire_rel n)) /\
-  (valid_abs n -> n <> [] \/ uncertain_display_root_special = true ->
+  (valid_abs n -> n <> [] \/ uncertain_display_root_special && uncertain_from_chars_root_special = true ->
      uncertain_from_chars None (display_uncertain true n) = Ok (true, wire_abs n)).
 Proof.
   split.
   - intros [Hv Hl]. unfold uncertain_from_chars, display_uncertain, display_relative.
-    destruct n as [|l n']; [reflexivity|].
+    destruct n as [|l n']; [rewrite andb_false_r; reflexivity|].
     inversion Hv as [|? ? [[L1 L2] L3] Hv']; subst. rewrite display_labels_cons.
+    rewrite first_not_dot by (repeat split; auto). rewrite andb_false_r. unfold uncertain_from_chars_plain.
     assert (P2 : valid_label ([] ++ l)) by (cbn [app]; repeat split; auto).
     assert (R0 : repr (mkopen [] []) b_init) by reflexivity.
     destruct (text_names n' [] [] l b_init (S (length (display_label l ++ tail_text n')))
@@ -441,9 +456,10 @@ Proof.
     rewrite E, I. cbn [orb app bind] in *. rewrite F. reflexivity.
   - intros [Hv Hl] Hk. unfold uncertain_from_chars, display_uncertain.
     destruct n as [|l n'].
-    + destruct Hk as [Hk|Hk]; [congruence|]. rewrite Hk. reflexivity.
-    + rewrite andb_false_r. unfold display_name. rewrite display_labels_cons, <- app_assoc.
+    + destruct Hk as [Hk|Hk]; [congruence|]. apply andb_true_iff in Hk as [K1 K2]. rewrite K1, K2. reflexivity.
+    + rewrite (andb_false_r uncertain_display_root_special). unfold display_name. rewrite display_labels_cons, <- app_assoc.
       inversion Hv as [|? ? [[L1 L2] L3] Hv']; subst.
+      rewrite first_not_dot by (repeat split; auto). rewrite andb_false_r. unfold uncertain_from_chars_plain.
       assert (P2 : valid_label ([] ++ l)) by (cbn [app]; repeat split; auto).
       assert (R0 : repr (mkopen [] []) b_init) by reflexivity.
       destruct (text_names_rest n' [] [] l b_init (S (length (display_label l ++ (tail_text n' ++ [sym_dot])))) [sym_dot]
@@ -462,7 +478,7 @@ Proof.
       rewrite Hin. cbn [negb].
       destruct (end_ok _ st' Hw R) as (st2 & E2 & R2). rewrite E2. cbn [append_syms sym_next].
       assert (Ha : aend (mkopen cl' lastl) = mk_a (l :: n') None).
-      { unfold aend, mkopen. cbn [closed opn]. destruct lastl; [cbn in A1; lia|]. rewrite C. reflexivity. }
+      { unfold aend, mkopen. cbn [closed opn]. destruct lastl as [|x y]; [cbn in A1; lia|]. cbn [closed opn]. f_equal. exact C. }
       rewrite Ha in R2. unfold repr in R2. cbn [opn closed] in R2. subst st2.
       cbn [in_label head buf orb].
       assert (Hnil : is_nil (wire_rel (l :: n')) = false).
@@ -475,10 +491,13 @@ Proof.
 Qed.
 
 (* the root name as an UncertainName: displayed ".." while the source does not special-case it *)
-Theorem uncertain_root_display_refuted : uncertain_display_root_special = false ->
-  display_uncertain true [] = [46; 46]%N /\ uncertain_from_chars None (display_uncertain true []) = Err T_EmptyLabel.
+(* the root name as an UncertainName does not read back while either site lacks its special case *)
+Theorem uncertain_root_display_refuted : uncertain_display_root_special && uncertain_from_chars_root_special = false ->
+  uncertain_from_chars None (display_uncertain true []) = Err T_EmptyLabel.
 Proof.
-  intros H. unfold display_uncertain. rewrite H. split; reflexivity.
+  intros H. unfold display_uncertain, uncertain_from_chars. apply andb_false_iff in H as [H|H]; rewrite H.
+  - destruct uncertain_from_chars_root_special; reflexivity.
+  - destruct uncertain_display_root_special; reflexivity.
 Qed.
 
 Theorem serde_rel_absolute_refuted : serde_rel_checks_absolute = false ->
